@@ -61,16 +61,16 @@ class Result:
         self.harness_crash = None
 
 
-def run_reader_families(res, fams, seed, oracle_fn, keep_growth=False, exact=True, extra_cases=None):
+def run_reader_families(res, fams, seed, oracle_fn, keep_growth=False, exact=True, extra_cases=None, post=None):
     """Generate, execute on impl and model, compare. oracle_fn(case, toks, log, items) -> Verdict or None."""
     for fam, size in fams:
         cases = run.gen_cases(fam, size, seed)
-        _run_cases(res, fam, cases, oracle_fn, keep_growth, exact)
+        _run_cases(res, fam, cases, oracle_fn, keep_growth, exact, post)
     if extra_cases:
-        _run_cases(res, 'corpus', extra_cases, oracle_fn, keep_growth, exact)
+        _run_cases(res, 'corpus', extra_cases, oracle_fn, keep_growth, exact, None)
 
 
-def _run_cases(res, fam, cases, oracle_fn, keep_growth, exact):
+def _run_cases(res, fam, cases, oracle_fn, keep_growth, exact, post=None):
     if not cases:
         return
     t = time.time()
@@ -108,6 +108,8 @@ def _run_cases(res, fam, cases, oracle_fn, keep_growth, exact):
             if h not in res.distinct:
                 res.distinct.add(h)
                 nt += 1
+    if post is not None:
+        nt += post(res, fam, cases, impl, spec)
     res.nontrivial += nt
     if len(res.samples) < 6 and cases:
         res.samples.append({'family': fam, 'case': cases[len(cases) // 2][:400], 'impl': impl[len(cases) // 2][:400]})
